@@ -213,6 +213,10 @@ def run(ctx, repo, tier):
         ctx.check(good, "SELECT", "C11.rotation", "the grid rotation with the smallest rotation angle (magnitude of the relative rotation) is "
                   "selected: argmin along the axis that ranges over the n_b grid rotations", qf.where,
                   "np.argmin(alignment_magnitudes, axis=0)", witness=detail)
+    # the assignment analyses the second molecule only: its selection must start after the atoms of molecule 1 and agree with the
+    # selection used when the pseudotrajectory / reader split the same universe
+    from .C10 import selection_siblings
+    selection_siblings(ctx, repo, "C11")
     ctx.require_instances("SELECT", 5, "selector obligations")
     ctx.trust(*META["trusted"])
     ctx.assume(*META["assumptions"])
